@@ -446,6 +446,9 @@ class EngineRun:
             self.beh[k] = s.get('beh', 'k')
             self.t.deliver((k, bytes.fromhex(s['hex'])))
             return
+        if op == 'wfail':
+            self.t.fail_sends = True      # the write side of the link breaks: the next send_frame raises RSocketTransportError
+            return
         if op == 'lost':
             self.on_close_mode = s.get('on_close')
             self.t.deliver(simnet.EOF_MARK if s.get('mode', 'eof') == 'eof' else __import__('rsocket.exceptions').exceptions.RSocketTransportError())
@@ -580,6 +583,7 @@ class EngineRun:
             'receiver_alive': ep._receiver_task is not None and not ep._receiver_task.done(),
             'sent_after_close': (len(self.t.sent) - self.sent_at_close) if self.sent_at_close is not None else 0,
             'transport_closed': self.t.closed,
+            'write_failures': self.t.failed_attempts,
             'oneway_pending': [k for k, at, f in self.oneway if not f.done() and at < self._first_loss_index()],
             'oneway_total': len(self.oneway),
         }
